@@ -25,3 +25,7 @@ func UFBytes(name string, n int, args ...[]byte) []byte
 func UFBool(name string, args ...[]byte) bool
 func Concrete(x uint64) uint64
 func Log(tag string, v any)
+func Or(a, b bool) bool
+func And(a, b bool) bool
+func Implies(a, b bool) bool
+func Ite64(c bool, a, b uint64) uint64
